@@ -216,7 +216,7 @@ def fmt_q(q):
 # ---------------------------------------------------------------------------------------------
 
 class Ev:
-    __slots__ = ("kind", "inst", "lits", "terms", "vars", "tkind", "la", "line", "raw")
+    __slots__ = ("kind", "inst", "lits", "terms", "vars", "tkind", "la", "line", "raw", "truncated")
 
     def __init__(self, kind):
         self.kind = kind
@@ -228,15 +228,17 @@ class Ev:
         self.la = None
         self.line = 0
         self.raw = None
+        self.truncated = False
 
 
-def read_trace(text, want=("t", "la")):
+def read_trace(text, want=("t", "la"), max_la=None, max_t=None):
     """Events of a trace text (an incomplete last line — the solver was killed — is dropped).
     Instances are canonicalised to small integers by order of first appearance.
     For 't' events `ev.la` is the immediately preceding (la ...) event (or None)."""
     evs = []
     inst = {}
     last_la = None
+    n_la = n_t = 0
     lines = text.split("\n")
     if lines and lines[-1] != "":
         lines = lines[:-1]          # truncated line
@@ -246,6 +248,12 @@ def read_trace(text, want=("t", "la")):
         k = line[1:line.find(" ")]
         if k not in want and not (k == "la" and "t" in want):
             continue
+        if (max_la is not None and n_la >= max_la and k == "la") or (max_t is not None and n_t >= max_t and k == "t"):
+            if evs:
+                evs[-1].truncated = True
+            break
+        n_la += k == "la"
+        n_t += k == "t"
         try:
             e = parse_one(line)
         except ParseError:
